@@ -131,3 +131,110 @@ func VerifC21Replay() {
 	}()
 	verifCheck(chain, signalled, code, stdout, exitNum)
 }
+
+// ---- two external commands in one block ----
+
+var verifPairs = []string{
+	"exec verifhelper1 && out a; exec verifhelper2 && out b",
+	"exec verifhelper1 || out a; exec verifhelper2 || out b",
+	"exec verifhelper1 && out a; exec verifhelper2 || out b",
+	"exec verifhelper1 || out a; exec verifhelper2 && out b",
+	"exec verifhelper1; exec verifhelper2",
+	"try { exec verifhelper1 && out a }; exec verifhelper2 && out b",
+	"exec verifhelper1 && exec verifhelper2 && out b",
+	"exec verifhelper1 || exec verifhelper2 || out b",
+}
+
+// verifCheckPair: every && / || / ; decision looks at the real exit status of the command
+// directly before it - also in the second statement of a block.
+func verifCheckPair(pair int, code1, code2 int, stdout string, exitNum int) {
+	ok1, ok2 := code1 == 0, code2 == 0
+	want := ""
+	add := func(c bool, s string) {
+		if c {
+			want += s + "\n"
+		}
+	}
+	switch pair {
+	case 0:
+		add(ok1, "a")
+		add(ok2, "b")
+	case 1:
+		add(!ok1, "a")
+		add(!ok2, "b")
+	case 2:
+		add(ok1, "a")
+		add(!ok2, "b")
+	case 3:
+		add(!ok1, "a")
+		add(ok2, "b")
+	case 4:
+		rt.Assert(exitNum == code2, "`cmd1; cmd2`: the block's exit number is not the exit status of the last command")
+	case 5:
+		add(ok1, "a")
+		add(ok2, "b")
+	case 6:
+		add(ok1 && ok2, "b")
+	case 7:
+		add(!ok1 && !ok2, "b")
+	}
+	rt.Assert(stdout == want, "&& / || in a block with two external commands did not follow the commands' real exit status")
+}
+
+// VerifC21Pair: two children with independent symbolic exit codes.
+func VerifC21Pair() {
+	mx.Init()
+	pair := rt.Choice("pair", len(verifPairs))
+	code1 := rt.IntRange("code1", 0, 255)
+	code2 := rt.IntRange("code2", 0, 255)
+	codeOf := func(c *exec.Cmd) int {
+		if strings.HasSuffix(c.Path, "1") {
+			return code1
+		}
+		return code2
+	}
+	states := map[*os.ProcessState]int{}
+	rt.Stub("os/exec.Command", func(name string, arg ...string) *exec.Cmd {
+		return &exec.Cmd{Path: name, Args: append([]string{name}, arg...)}
+	})
+	rt.Stub("(*os/exec.Cmd).Start", func(c *exec.Cmd) error {
+		c.Process = &os.Process{Pid: 4242}
+		return nil
+	})
+	rt.Stub("(*os/exec.Cmd).Wait", func(c *exec.Cmd) error {
+		c.ProcessState = new(os.ProcessState)
+		states[c.ProcessState] = codeOf(c)
+		if codeOf(c) == 0 {
+			return nil
+		}
+		return &exec.ExitError{ProcessState: c.ProcessState}
+	})
+	rt.Stub("(*os.ProcessState).ExitCode", func(ps *os.ProcessState) int { return states[ps] })
+	rt.Stub("(*os.ProcessState).String", func(ps *os.ProcessState) string { return "exit status N" })
+
+	stdout, _, exitNum, err := mx.Run(verifPairs[pair])
+	rt.Assert(err == nil, "block does not compile")
+	rt.Reach("ran-pair")
+	verifCheckPair(pair, code1, code2, stdout, exitNum)
+}
+
+// VerifC21PairReplay: native driver with real `sh` children.
+func VerifC21PairReplay() {
+	mx.Init()
+	pair := rt.Choice("pair", len(verifPairs))
+	code1 := rt.IntRange("code1", 0, 255)
+	code2 := rt.IntRange("code2", 0, 255)
+	block := strings.Replace(verifPairs[pair], "verifhelper1", fmt.Sprintf("sh -c 'exit %d'", code1), 1)
+	block = strings.Replace(block, "verifhelper2", fmt.Sprintf("sh -c 'exit %d'", code2), 1)
+	stdout, _, exitNum, err := mx.Run(block)
+	rt.Assert(err == nil, "block does not compile: "+block)
+	defer func() {
+		if r := recover(); r != nil {
+			if f, ok := r.(rt.ReplayFailure); ok {
+				panic(rt.ReplayFailure{Msg: f.Msg + fmt.Sprintf(" [block: %s ; stdout %q exit number %d]", block, stdout, exitNum)})
+			}
+			panic(r)
+		}
+	}()
+	verifCheckPair(pair, code1, code2, stdout, exitNum)
+}
